@@ -2,12 +2,13 @@ SPECIFICATION MCSpec
 CONSTANTS
  Variant = "coded"
  StraddleOK = FALSE
- AllowStraddle = FALSE
  MCTypes = {"proposer", "randao"}
  MCSlots = {1}
- MaxCalls = 2
+ MaxCalls = 1
  MaxReorgs = 0
  Toks = {1, 2}
+ AttIdx = {2}
+ WithCancel = TRUE
  MCConf <- ConfA
-INVARIANTS RandaoBinding AttRootBinding SyncRootBinding AggOnlySelected SyncOnlySelected SubsExact NoResultUnresolved OnlyDefined AttesterComplete CacheSound NoLimbo
+INVARIANTS RandaoBinding AttRootBinding SyncRootBinding AggOnlySelected SyncOnlySelected SubsExact NoResultUnresolved OnlyDefined AttesterComplete CacheSound CacheFresh NoLimbo
 CHECK_DEADLOCK FALSE
